@@ -16,18 +16,18 @@ def main():
                       'undirected n=5 with lengths {1,2} (quick tier: random slices of all of these), random and structured graphs n=5..10 '
                       '(chains with chords, two components, sinks/sources), weights k/8 in (0,1] for log; on each graph all routines of the '
                       'property are run; non-trivial = distinct graph with a multi-hop shortest path or an unreachable pair')
-    ck.assumptions += ['every watchdog hit is counted per routine (coverage.timeouts); a routine timing out on more than 20 % of its calls is reported as a break',
-                       'inputs have an empty diagonal and positive lengths (property quantifier); float dtype',
+    ck.assumptions += ['every bct call runs under the watchdog with a 10x retry; a call that still does not return is a violation does-not-return (the models are proved total), also in the self-loop stream',
+                       'existing connections have positive length / weight; the diagonal is empty except in the self-loop family (judged for distance_bin, reachdist, distance_wei, distance_wei_floyd, whose theorems do not need it; breadthdist there by correspondence only); storage varies over float64/float32/int64/int32/uint8/bool and C/Fortran/transposed order on a third of the cases (float32 only where the routine does not divide)',
                        "'log' transform: compared with the oracle by tolerance 1e-9 only (no model correspondence)",
                        'charpath/efficiency values compared with the exact rational of the model by tolerance 1e-9',
                        'rout_efficiency: only GErout and Erout (global part) are covered; local efficiencies are out of scope']
     # T-gen: re-extract the core update steps from /repo's current source (translate/cores.py); the generated
     # obligations say the extracted IR is the reference program whose interpreter is proved equal to the model
-    ck.cov['cores'] = cores.generate(families=['floyd', 'dijk'])
+    ck.cov['cores'] = cores.generate(families=['floyd', 'dijk', 'bin', 'bfs'])
     for p_ in ck.cov['cores']['problems']:
         ck.corr_break('core extractor (translate/cores.py)', p_)
     ok = ck.lean_gate(['BctVerif.Props.C03'], extra_modules=['BctVerif.Model.Dist'])
-    ck.lean_gate([], gen_modules=['BctVerif.Gen.CoresFloyd', 'BctVerif.Gen.CoresDijk'])
+    ck.lean_gate([], gen_modules=['BctVerif.Gen.CoresFloyd', 'BctVerif.Gen.CoresDijk', 'BctVerif.Gen.CoresBin', 'BctVerif.Gen.CoresBfs'])
     if ck.tier == 'thorough' and ok:
         ck.leanchecker(['BctVerif.Props.C03', 'BctVerif.Model.Dist'])
     rp = json.load(open(ck.replay)) if ck.replay else None
